@@ -15,6 +15,7 @@ import (
 var allStrategies = []string{
 	"byz.follow",
 	"byz.pp",
+	"byz.self-prepare",
 	"byz.pp-hiview-standalone/legit-leader",
 	"byz.pp-hiview-standalone/non-leader",
 	"byz.vote",
@@ -213,6 +214,8 @@ func (w *World) adversaryStep() bool {
 		return w.advFollow(b, h, v)
 	case "byz.pp":
 		return w.advPP(b, h, 0, s)
+	case "byz.self-prepare":
+		return w.advSelfPrepare(b, h, v)
 	case "byz.pp-hiview-standalone/legit-leader", "byz.pp-hiview-standalone/non-leader":
 		return w.advPPHiView(b, h, v, s)
 	case "byz.vote", "byz.vote-proof-no-block", "byz.vote-forged-proof":
@@ -304,6 +307,48 @@ func (w *World) advPP(b int, h, v uint64, tag string) bool {
 	return w.inject(b, raw, tag, nil) > 0
 }
 
+// byz.self-prepare: the Byzantine leader of a view the correct nodes have not reached yet sends, ahead of time, its own
+// PREPARE for that view (a leader never prepares its own proposal), for the hash its NEW_VIEW will later carry: the
+// locked block if a certificate is around, else a block it plans to propose (advNewView then uses that block).
+func (w *World) advSelfPrepare(b int, h, v uint64) bool {
+	sg := w.signer(b)
+	tv := v + 1
+	c := w.Committee(h)
+	found := false
+	for d := uint64(0); d < uint64(len(c)); d++ {
+		if w.leader(h, tv+d).Equal(sg.Id()) {
+			tv += d
+			found = true
+			break
+		}
+	}
+	if !found {
+		return false
+	}
+	var hash []byte
+	var best *SentRec
+	for _, s := range w.capturedProofs(h) {
+		if s.msg.Vote.Proof.PP.V < tv && (best == nil || s.msg.Vote.Proof.PP.V > best.msg.Vote.Proof.PP.V) {
+			best = s
+		}
+	}
+	if best != nil {
+		hash = best.msg.Vote.Proof.PP.Hash
+	} else {
+		if w.planned == nil {
+			w.planned = map[hv]*Block{}
+		}
+		blk := w.planned[hv{h, tv}]
+		if blk == nil {
+			blk = w.freshBlock(h, b, false)
+			w.planned[hv{h, tv}] = blk
+		}
+		hash = blk.Hash()
+	}
+	raw := SignedRefMsg(sg, KP, protocol.LEAN_HELIX_PREPARE, w.instance, h, tv, hash, nil, nil)
+	return w.inject(b, raw, "byz.self-prepare", nil) > 0
+}
+
 // byz.pp-hiview-standalone: PREPREPARE for a view above 0 outside any NEW_VIEW.
 func (w *World) advPPHiView(b int, h, v uint64, tag string) bool {
 	sg := w.signer(b)
@@ -392,7 +437,32 @@ func (w *World) forgeProofKind(b int, h, below uint64, kind int) (Proof, *Block,
 	sg := w.signer(b)
 	own := Sig{sg.Id(), sg.Msg(h, refBuilder(protocol.LEAN_HELIX_PREPARE, w.instance, h, p.Ref.V, p.Ref.Hash).Build().Raw())}
 	if kind < 0 {
-		kind = w.ch.Pick("fp-kind", 6)
+		kind = w.ch.Pick("fp-kind", 7)
+	}
+	if kind == 6 {
+		// spliced proof: genuine PREPARE signatures of view u1 under a PREPREPARE reference for the same block hash in
+		// a LATER view u2 (< target) that a Byzantine member leads and signs: every signature verifies, the two
+		// references disagree only in their view; it claims the block was prepared in u2
+		found := false
+		for u2 := p.Ref.V + 1; u2 < below && u2 < p.Ref.V+1+uint64(len(w.Committee(h))); u2++ {
+			ld := w.keys.IdxOf(w.leader(h, u2))
+			if ld >= 0 && ld < w.cfg.N && w.nodes[ld].byz {
+				lsg := w.signer(ld)
+				pr.PP = Ref{Type: protocol.LEAN_HELIX_PREPREPARE, Instance: w.instance, H: h, V: u2, Hash: p.Ref.Hash}
+				pr.PPSig = Sig{lsg.Id(), lsg.Msg(h, refBuilder(protocol.LEAN_HELIX_PREPREPARE, w.instance, h, u2, p.Ref.Hash).Build().Raw())}
+				if !sg.Id().Equal(lsg.Id()) {
+					pr.PSigs = append(pr.PSigs, own)
+				}
+				found = true
+				break
+			}
+		}
+		if found {
+			w.use("byz.proof-spliced-views")
+			w.probe("forged-proof-spliced-views")
+			return pr, w.blocks[string(p.Ref.Hash)], true
+		}
+		kind = 0
 	}
 	if kind == 5 {
 		// mixed proof: genuine PREPARE signatures for the block a Byzantine leader showed around, under a
@@ -558,9 +628,16 @@ func (w *World) advNewView(b int, h, v uint64, tag string) bool {
 				ownProof, staleBlk = c.msg.Vote.Proof, c.raw.Block
 			}
 		}
-		if !ownProof.Present && w.ch.Pick("stale-mixed", 3) == 2 {
-			if p, bk, ok := w.forgeProofKind(b, h, tv, 5); ok && bk != nil {
-				ownProof, staleBlk = p, bk
+		if !ownProof.Present {
+			switch w.ch.Pick("stale-mixed", 4) {
+			case 2:
+				if p, bk, ok := w.forgeProofKind(b, h, tv, 5); ok && bk != nil {
+					ownProof, staleBlk = p, bk
+				}
+			case 3: // an old certificate dressed up as one of a later view (spliced references)
+				if p, bk, ok := w.forgeProofKind(b, h, tv, 6); ok && bk != nil {
+					ownProof, staleBlk = p, bk
+				}
 			}
 		}
 		if !ownProof.Present {
@@ -617,6 +694,8 @@ func (w *World) advNewView(b int, h, v uint64, tag string) bool {
 	} else if best != nil && tag != "byz.nv-omit-locks" && w.ch.Pick("nv-honour-lock", 4) != 3 {
 		blk = best.raw.Block
 		hash = best.msg.Vote.Proof.PP.Hash
+	} else if pb := w.planned[hv{h, tv}]; pb != nil && best == nil {
+		blk, hash = pb, pb.Hash() // the block announced earlier by the leader's own early PREPARE (byz.self-prepare)
 	} else {
 		fb := w.freshBlock(h, b, w.ch.Pick("pp-poison", 4) == 3)
 		blk, hash = fb, fb.Hash()
